@@ -4,7 +4,9 @@
  * (which provides rs_case_new and the rs_case_* constants) and libparsec; started
  * directly (1 rank) or under mpiexec (2..4 ranks).
  *
- *   reshape_driver <cores> <thread_multiple 0|1> [parsec options, e.g. --mca runtime_comm_short_limit 0]
+ *   reshape_driver <cores> <thread_multiple 0|1> <outprefix> [parsec options, e.g. --mca runtime_comm_short_limit 0]
+ * rank r writes its block to the file <outprefix>.<r> (mpiexec's forwarding of stdout may interleave
+ * the ranks in the middle of a line)
  *
  * What it sets up (modelled on tests/collections/reshape/common.h):
  *   - a one-dimensional collection of rs_case_ntiles tiles of mb x mb elements of
@@ -23,7 +25,7 @@
  *     profiling interface (this file defines MPI_Sendrecv and calls PMPI_Sendrecv):
  *     source pointer/type/count, destination pointer/type/count;
  *   - the final content of the local tiles of the collection.
- * Output (one block per rank, merged and canonicalised by checks/C18.py):
+ * Output (one block per rank, every line prefixed by "<rank>| ", merged and canonicalised by checks/C18.py):
  *   T <cls> <k> <r> <ptr> <dtt> <hex>      X <srcptr> <srctype> <srccount> <dstptr> <dsttype> <dstcount>
  *   D <idx> <hex>      N <allocations>     END rc=0
  * pointers are printed as  D<idx>+<off>  (inside tile idx of the collection),
@@ -188,15 +190,16 @@ int MPI_Sendrecv(const void *sendbuf, int sendcount, MPI_Datatype sendtype, int 
 /* ---------------------------------------------------------------- main */
 int main(int argc, char **argv) {
     int provided, cores, mt, rc;
-    if (argc < 3) { fprintf(stderr, "usage: reshape_driver cores thread_multiple [parsec options]\n"); return 2; }
+    if (argc < 4) { fprintf(stderr, "usage: reshape_driver cores thread_multiple outprefix [parsec options]\n"); return 2; }
     cores = atoi(argv[1]); mt = atoi(argv[2]);
+    const char *outprefix = argv[3];
     MPI_Init_thread(NULL, NULL, mt ? MPI_THREAD_MULTIPLE : MPI_THREAD_SERIALIZED, &provided);
     MPI_Comm_size(MPI_COMM_WORLD, &rs_nranks);
     MPI_Comm_rank(MPI_COMM_WORLD, &rs_rank);
 
     char *pv[64]; int pc = 0;
     pv[pc++] = "--";
-    for (int i = 3; i < argc && pc < 62; i++) pv[pc++] = argv[i];
+    for (int i = 4; i < argc && pc < 62; i++) pv[pc++] = argv[i];
     pv[pc] = NULL;
     char **pvp = pv;
     parsec_context_t *ctx = parsec_init(cores, &pc, &pvp);
@@ -225,20 +228,23 @@ int main(int argc, char **argv) {
     if (0 != parsec_context_start(ctx)) { printf("END rc=start-failed\n"); return 3; }
     if (0 != parsec_context_wait(ctx)) { printf("END rc=wait-failed\n"); return 3; }
 
-    /* one block per rank, in rank order */
-    for (int turn = 0; turn < rs_nranks; turn++) {
-        MPI_Barrier(MPI_COMM_WORLD);
-        if (turn != rs_rank) continue;
-        printf("RANK %d of %d\n", rs_rank, rs_nranks);
+    /* one block per rank, in its own file; every line carries the rank */
+    {
+        int R = rs_rank;
+        char fn[1024];
+        snprintf(fn, sizeof(fn), "%s.%d", outprefix, R);
+        FILE *out = fopen(fn, "w");
+        if (!out) { perror(fn); return 3; }
+        fprintf(out, "%d| RANK %d of %d\n", R, rs_rank, rs_nranks);
         for (int i = 0; i < rs_nlog; i++) {
             rs_ent_t *e = &rs_log[i];
-            if (e->kind == 'T') printf("T %d %d %d %s %s %s\n", e->cls, e->k, e->r, e->ptr, e->dtt, e->hex);
-            else printf("X %s %s %ld %s %s %ld\n", e->ptr, e->dtt, e->c1, e->ptr2, e->dtt2, e->c2);
+            if (e->kind == 'T') fprintf(out, "%d| T %d %d %d %s %s %s\n", R, e->cls, e->k, e->r, e->ptr, e->dtt, e->hex);
+            else fprintf(out, "%d| X %s %s %ld %s %s %ld\n", R, e->ptr, e->dtt, e->c1, e->ptr2, e->dtt2, e->c2);
         }
-        for (int k = 0; k < rs_dc->n; k++) if (rs_dc->mem[k]) { char *h = rs_hex(rs_dc->mem[k], rs_tile_bytes); printf("D %d %s\n", k, h); free(h); }
-        printf("N %d\n", rs_nalloc);
-        printf("END rc=0\n");
-        fflush(stdout);
+        for (int k = 0; k < rs_dc->n; k++) if (rs_dc->mem[k]) { char *h = rs_hex(rs_dc->mem[k], rs_tile_bytes); fprintf(out, "%d| D %d %s\n", R, k, h); free(h); }
+        fprintf(out, "%d| N %d\n", R, rs_nalloc);
+        fprintf(out, "%d| END rc=0\n", R);
+        fclose(out);
     }
     MPI_Barrier(MPI_COMM_WORLD);
     parsec_taskpool_free(tp);
